@@ -326,6 +326,19 @@ class World:
         self.F = None
         return None
 
+    def native_escapes(self):
+        """native mode: files created outside the store root, or inside it at a location that is not hash-derived"""
+        import re
+        ok = re.compile(r"^/s/(hashstore\.yaml|(objects|metadata|refs/(pids|cids))(/[0-9a-f]+)+(_delete)?|"
+                        r"(objects|metadata|refs)/tmp/[^/]+)$")
+        out = []
+        for k in self.nb.snapshot("/"):
+            if k.startswith("/src/"):
+                continue
+            if not ok.match(k):
+                out.append(k)
+        return out
+
     def cleanup(self):
         if self.scratch and os.path.isdir(self.scratch):
             shutil.rmtree(self.scratch, ignore_errors=True)
